@@ -53,7 +53,8 @@ class C14(Prop):
         'serVarInt_eq_compactSize', 'serBytes_eq_varBytes', 'msg_digest_eq_spec', 'msg_digest_text', 'magic_prefix',
         'msg_digest_too_long', 'headerByte_eq_spec', 'header_range', 'header_roundtrip', 'headerDecode_eq_spec',
         'header_decode_encode', 'recoverCompact_length', 'verify_true_only_if', 'verify_true_if',
-        'verify_false_other')]
+        'verify_false_other', 'recover_correct', 'verify_recovered', 'signCompact_layout',
+        'signCompact_error')]
     anchors = [('bitcoin/signmessage.py', 'VerifyMessage'), ('bitcoin/signmessage.py', 'SignMessage'),
                ('bitcoin/signmessage.py', 'BitcoinMessage'), ('bitcoin/core/key.py', 'CECKey.sign_compact'),
                ('bitcoin/core/key.py', 'CECKey.recover'), ('bitcoin/core/key.py', 'CPubKey.recover_compact'),
@@ -155,14 +156,14 @@ class C14(Prop):
                 yield mk('c14.verify', chain, v, pl, cps(MAGIC), cps(t), sg.hex(), tag='verify-lean-signed')
             yield mk('c14.verify', chain, ver, hc, cps(MAGIC), cps(perturb(rng, t)), good_c.hex(), tag='verify-perturbed')
             yield mk('c14.verify', chain, ver, hc, cps('X'), cps(t), good_c.hex(), tag='verify-magic')
-            # recover_compact: header classes, out-of-range and non-liftable r, s
-            hdrs = sorted({27 + recid, 31 + recid, 27, 30, 31, 34, 26, 35, 0, 3, 255, 27 + 8 + recid, rng.randrange(256)})
-            for hb in (range(256) if (q == 0 and (big or shard == 0)) else hdrs):
+            # recover_compact on the property's domain: headers 27..34, r, s in [1, n-1]; liftable or not, and
+            # r = x - n with n <= x < p so that recovery ids 2 and 3 select a different abscissa
+            for hb in range(27, 35):
                 yield mk('c14.recoverCompact', d, (bytes([hb]) + rs).hex(), tag='recover-header')
-            xs = P - N - 1 - rng.randrange(0, 1 << 20)            # r = x - n with n <= x < p: recid 2,3 reachable
-            for rv, s2 in ((0, sv), (r, 0), (N, sv), (r, N), (N + r if N + r < 2 ** 256 else r, sv), (r, N + 1),
-                           (2 ** 256 - 1, sv), (r, 2 ** 256 - 1), (xs, sv), (P - N, sv), (P - N - 1, sv),
-                           (rng.randrange(1, N), rng.randrange(1, N)), (rng.randrange(1, P - N), sv), (1, 1), (0, 0)):
+            xs = P - N - 1 - rng.randrange(0, 1 << 20)
+            for rv, s2 in ((r, N - sv), (r, 1), (1, sv), (N - 1, sv), (r, N - 1), (xs, sv), (P - N - 1, sv),
+                           (P - N, sv), (rng.randrange(1, N), rng.randrange(1, N)), (rng.randrange(1, P - N), sv),
+                           (1, 1)):
                 for rid in range(4):
                     sg = bytes([27 + rid + 4 * (q & 1)]) + rv.to_bytes(32, 'big') + s2.to_bytes(32, 'big')
                     yield mk('c14.recoverCompact', d, sg.hex(), tag='recover-range')
